@@ -218,6 +218,54 @@ def run(chk: common.Check):
     for r, e, tx, o in zip(reqs, exps, texts, drv.ask(reqs)):
         if o.split() != e.split():
             diffs.append({"text": tx, "model": o, "impl": e})
+    # metabook objects themselves: every kind of object a metabook is made of comes back as that kind, with the same attributes
+    # (the wire format names the class: {"type": "<ClassName>", ...}) - alone, and as the wikis/licenses/items of a collection
+    import inspect
+
+    from mwlib.core import metabook as mbmod
+    from mwlib.utils import myjson as mj
+
+    kinds = [k for k in vars(mbmod).values()
+             if inspect.isclass(k) and issubclass(k, mbmod.MetabookObject) and k is not mbmod.MetabookObject]
+
+    def same(a, b, path="metabook"):
+        if isinstance(a, mbmod.MetabookObject) or isinstance(b, mbmod.MetabookObject):
+            if type(a) is not type(b):
+                return f"{path}: a {type(a).__name__} comes back as a {type(b).__name__}"
+            ka = {k: v for k, v in a.__dict__.items() if v is not None and not k.startswith("_")}
+            kb = {k: v for k, v in b.__dict__.items() if v is not None and not k.startswith("_")}
+            if set(ka) != set(kb):
+                return f"{path}: attributes {sorted(set(ka) ^ set(kb))} differ"
+            for k in ka:
+                w = same(ka[k], kb[k], f"{path}.{k}")
+                if w:
+                    return w
+            return None
+        if isinstance(a, list) and isinstance(b, list):
+            if len(a) != len(b):
+                return f"{path}: {len(a)} entries before, {len(b)} after"
+            for j, (x, y) in enumerate(zip(a, b)):
+                w = same(x, y, f"{path}[{j}]")
+                if w:
+                    return w
+            return None
+        return None if a == b and type(a) is type(b) else f"{path}: {a!r} before, {b!r} after"
+
+    for k in kinds:
+        hist["object-roundtrips"] += 1
+        objs = [k(), k(title="T\u00e4 1", note=[1, "x"])]
+        holder = mbmod.Collection(title="c")
+        holder.wikis, holder.licenses, holder.items = [k(ident="a")], [k(name="l")], [mbmod.Chapter(title="ch", items=[k(title="t")])]
+        objs.append(holder)
+        for o in objs:
+            try:
+                text = mj.dumps(o)
+                back = mj.loads(text)
+                w = same(o, back)
+            except Exception as e:  # noqa: BLE001
+                text, w = repr(o), f"dumps/loads of a {k.__name__} raised {type(e).__name__}: {e}"
+            if w:
+                viol.append({"why": "a metabook object does not survive dumps/loads: " + w, "text": text})
     # collection ids
     nid = 3000 if tier == "thorough" else 500
     idstats = Counter()
